@@ -22,6 +22,9 @@ pub struct CallSet {
     pub samples: Vec<String>,
     pub contigs: Vec<String>,
     pub records: Vec<Record>,
+    /// write the `##contig` header lines in reverse order (their `IDX` values, which are what BCF
+    /// records refer to, stay the same)
+    pub contig_lines_reversed: bool,
 }
 
 impl CallSet {
@@ -30,6 +33,7 @@ impl CallSet {
             samples: (0..n_samples).map(|i| format!("s{i}")).collect(),
             contigs: vec!["chr1".into(), "chr2".into()],
             records: Vec::new(),
+            contig_lines_reversed: false,
         }
     }
     /// Appends a plain biallelic record at the next position of contig 0.
@@ -54,8 +58,12 @@ pub fn vcf_header(cs: &CallSet, bcf_idx: bool) -> String {
         "##FILTER=<ID=PASS,Description=\"All filters passed\"{}>\n",
         idx(0)
     ));
-    for (i, c) in cs.contigs.iter().enumerate() {
-        s.push_str(&format!("##contig=<ID={c},length=100000{}>\n", idx(i)));
+    let mut order: Vec<usize> = (0..cs.contigs.len()).collect();
+    if cs.contig_lines_reversed {
+        order.reverse();
+    }
+    for i in order {
+        s.push_str(&format!("##contig=<ID={},length=100000{}>\n", cs.contigs[i], idx(i)));
     }
     s.push_str(&format!(
         "##INFO=<ID=XI,Number=1,Type=Integer,Description=\"Extra info\"{}>\n",
